@@ -34,7 +34,7 @@ import (
 )
 
 const pgsimAssumption = "pgsim: hand-written in-process model of the Postgres subset the ledger uses (READ COMMITTED MVCC, row/advisory locks, triggers, PL/pgSQL); it cannot be validated against a real server in this sandbox"
-const httpAssumption = "HTTP layer: requests are served in-process by the real api.NewRouter (all middlewares, no authentication, the router options of internal/api/module.go: default bulk size, default bulker factory, exporters disabled) through net/http/httptest; no TCP socket, no net/http server-side parsing of the request line/headers"
+const httpAssumption = "HTTP layer: requests are served in-process by the real api.NewRouter (all middlewares, no authentication, the router options of internal/api/module.go: default bulk size, default bulker factory, exporters disabled; the system controller has the parsers of internal/controller/system/module.go with the serve default --numscript-cache-max-count=1024, i.e. the compiled-script cache is on and lives as long as one simulated server process) through net/http/httptest; no TCP socket, no net/http server-side parsing of the request line/headers"
 
 // KV is one query-string pair (ordered: replays must be byte-identical).
 type KV struct {
@@ -175,8 +175,15 @@ type Env struct {
 	H  http.Handler
 }
 
+// ServeNumscriptCacheMaxCount is the default of `serve --numscript-cache-max-count`
+// (cmd/serve.go): in the production wiring (internal/controller/system/module.go) every
+// script goes through the LFU cache of compiled programs, which lives as long as the
+// process. One Env = one server process: the cache is shared by every request served by
+// that Env, whatever the ledger, the API version or the route.
+const ServeNumscriptCacheMaxCount = 1024
+
 func NewEnv(pg *pgsim.DB) *Env {
-	w := world.Attach(pg)
+	w := world.AttachWith(pg, world.Options{NumscriptCacheMaxCount: ServeNumscriptCacheMaxCount})
 	// same options as internal/api/module.go (production wiring); exporters stay disabled
 	return &Env{PG: pg, W: w, H: api.NewRouter(w.Sys, jwt.NewNoAuth(), nil, "develop", false,
 		api.WithBulkMaxSize(api.DefaultBulkMaxSize),
